@@ -138,6 +138,30 @@ func RunTree(r *vh.Run, rng *vh.RNG, name string, t *chainx.Tree, sched [][]int)
 			}
 		}()
 		c01.AuditProbe(c, nd)
+		// the node's other queries after the prune (cold caches: blocks were submitted since they
+		// were last asked): an error or a poorer answer is fine, a panic is not
+		for _, q := range []struct {
+			name string
+			fn   func()
+		}{
+			{"RecommendedFee", func() { nd.CM.RecommendedFee() }},
+			{"PoolTransactions", func() { nd.CM.PoolTransactions(); nd.CM.V2PoolTransactions() }},
+			{"History", func() { nd.CM.History() }},
+			{"MinReorgIndex", func() { nd.CM.MinReorgIndex() }},
+			{"TipState", func() { nd.CM.TipState() }},
+			{"BlocksForHistory", func() { nd.CM.BlocksForHistory([]types.BlockID{t.Blocks[0].Block.ID()}, 10) }},
+			{"Headers", func() { nd.CM.Headers(types.ChainIndex{ID: t.Blocks[0].Block.ID()}, 10) }},
+			{"UpdatesSince", func() { nd.CM.UpdatesSince(nd.CM.Tip(), 10) }},
+		} {
+			func() {
+				defer func() {
+					if rec := recover(); rec != nil {
+						c.Oracle("query-panic-after-prune:"+q.name, "%s panicked after PruneBlocks(%d) with the tip at height %d: %v", q.name, h, tipH, rec)
+					}
+				}()
+				q.fn()
+			}()
+		}
 		c.Op(fmt.Sprintf("prune %d", h), c01.Observe(t, nd, "ok"))
 		prunes++
 		for _, b := range t.Blocks {
